@@ -45,6 +45,7 @@ import (
 	"sort"
 	"strconv"
 	"strings"
+	"sync"
 	"sync/atomic"
 	"time"
 
@@ -268,6 +269,49 @@ const watchdog = 8 * time.Second
 // steering: what to do around the real keep call for a given object
 type delay struct {
 	before, after int // 0 none; n>0: n x Gosched; n<0: sleep -n microseconds
+	// rendezvous (deterministic windows instead of lucky sleeps): the keep call of this object
+	// waits, before calling the real keep (waitBefore) or after it returned and before the caller stores
+	// (waitAfter), until the keep call of `on` has RETURNED (plus a short grace period so that its caller has
+	// stored) — or until a timeout, so that a file order / worker count in which `on` can never be reached
+	// concurrently costs 2 ms instead of a deadlock.
+	waitBefore, waitAfter bool
+	on                    ref
+}
+
+// rendezvous bookkeeping of one extraction
+type rdv struct {
+	mu   sync.Mutex
+	done map[ref]chan struct{}
+}
+
+func (r *rdv) ch(x ref) chan struct{} {
+	r.mu.Lock()
+	defer r.mu.Unlock()
+	c, ok := r.done[x]
+	if !ok {
+		c = make(chan struct{})
+		r.done[x] = c
+	}
+	return c
+}
+
+func (r *rdv) signal(x ref) {
+	c := r.ch(x)
+	r.mu.Lock()
+	defer r.mu.Unlock()
+	select {
+	case <-c:
+	default:
+		close(c)
+	}
+}
+
+func (r *rdv) wait(x ref) {
+	select {
+	case <-r.ch(x):
+		time.Sleep(30 * time.Microsecond)
+	case <-time.After(2 * time.Millisecond):
+	}
 }
 
 func doDelay(n int) {
@@ -281,18 +325,29 @@ func doDelay(n int) {
 }
 
 func wrapKeep(k gosm.KeepFunc, calls *int64, steer map[ref]delay) gosm.KeepFunc {
+	rv := &rdv{done: map[ref]chan struct{}{}}
 	return func(d *gosm.Data, o interface{}) bool {
 		atomic.AddInt64(calls, 1)
 		if steer == nil {
 			return k(d, o)
 		}
-		dl, ok := steer[objRef(o)]
+		me := objRef(o)
+		dl, ok := steer[me]
 		if !ok {
-			return k(d, o)
+			r := k(d, o)
+			rv.signal(me)
+			return r
 		}
 		doDelay(dl.before)
+		if dl.waitBefore {
+			rv.wait(dl.on)
+		}
 		r := k(d, o)
+		rv.signal(me)
 		doDelay(dl.after)
+		if dl.waitAfter {
+			rv.wait(dl.on)
+		}
 		return r
 	}
 }
@@ -549,7 +604,7 @@ func implLine(line string) (res string, fatal bool) {
 	for i := 0; i < runs; i++ {
 		procs := []int{2, 4, 16, 2, 3}[rng.Intn(5)]
 		steer := map[ref]delay{}
-		mode := rng.Intn(4)
+		mode := rng.Intn(6)
 		nd := 1 + rng.Intn(3)
 		if mode == 3 {
 			nd = len(objs) // yield everywhere (cheap Gosched only)
@@ -561,6 +616,24 @@ func implLine(line string) (res string, fatal bool) {
 			}
 			var dl delay
 			switch mode {
+			case 4, 5: // rendezvous between an object and one that references it (or any other object)
+				dl.on = objs[rng.Intn(len(objs))].ref
+				var users []ref
+				for _, u := range objs {
+					for _, rr := range u.refs {
+						if rr == o.ref {
+							users = append(users, u.ref)
+						}
+					}
+				}
+				if len(users) > 0 && rng.Intn(4) != 0 {
+					dl.on = users[rng.Intn(len(users))]
+				}
+				if mode == 4 { // o is judged, its user is judged (and sees o not stored), then o is stored
+					dl.waitAfter = true
+				} else { // o is judged only after its user has been judged and stored
+					dl.waitBefore = true
+				}
 			case 0: // hold the store back: sleep after keep decided
 				dl.after = -(20 + rng.Intn(120))
 			case 1: // hold the read back
@@ -603,17 +676,20 @@ func implLine(line string) (res string, fatal bool) {
 			return "error all", false
 		}
 		f1s, f2s := map[string]int{}, map[string]int{}
+		fdig, fdig2 := map[string]int{}, map[string]int{} // stored objects + Geom + CountTags of the Filter results
 		chk := "ok"
 		var pan string
 		for i := 0; i < 4; i++ {
 			pan = vproto.Safe(func() {
 				f1 := all.d.Filter(keep)
 				f1s[idsOf(f1)]++
+				fdig[obsDigest(f1)]++
 				if f1.Check() != nil {
 					chk = "fail"
 				}
 				f2 := f1.Filter(keep)
 				f2s[idsOf(f2)]++
+				fdig2[obsDigest(f2)]++
 			})
 			if pan != "" {
 				break
@@ -622,7 +698,7 @@ func implLine(line string) (res string, fatal bool) {
 		if pan != "" {
 			fmt.Fprintf(&b, " filt=panic:%s", pan)
 		} else {
-			fmt.Fprintf(&b, " filt=%s/%s filt2=%s", distinctStr(f1s), chk, distinctStr(f2s))
+			fmt.Fprintf(&b, " filt=%s/%s filt2=%s fdig=%s|%s", distinctStr(f1s), chk, distinctStr(f2s), distinctStr(fdig), distinctStr(fdig2))
 		}
 	} else {
 		b.WriteString(" filt=skip")
